@@ -22,8 +22,9 @@ theorem C01_msgpack_document (v : MVal) (hw : WF v) : decode (enc v) = .ok v :=
 
 /-- R1, the packer layer: for every admissible packed-level value — None, booleans, integers of ANY size (native or
     through the sign-magnitude big-integer envelope), float bit patterns, text in the image of
-    decode/surrogateescape, bytes, lists/tuples and dicts of these to any depth, timestamps in both encodings, and
-    records nested in records to any depth whose identifiers are bound to their own descriptors — what the packer
+    decode/surrogateescape, bytes, lists/tuples and dicts of these to any depth, timestamps in both encodings,
+    records nested in records to any depth and grouped records, whose identifiers are bound to their own descriptors
+    — what the packer
     produces is unpacked to exactly that value, field for field. -/
 theorem C01_packed_roundtrip (reg : Registry) (pv : PV) (m : MVal) (hok : PVOK reg pv) (hm : toM pv = some m) :
     fromM reg (need pv) m = .ok (rvOf pv) :=
@@ -44,9 +45,10 @@ theorem C01_varint_any_size (i : Int) :
   by_cases h : i < 0 <;> simp [h] <;> omega
 
 /-- C01 at the byte level, the composition of everything above (M1, framing, registry invariant, envelopes):
-    for EVERY admissible history of records — any number of records, any interleaving of descriptors (including
-    descriptors whose identifiers collide, as long as no single record tree holds two of them), records nested in
-    records to any depth, every value kind of `PVOK` — written by a fresh writer, the reader run over the BYTES of the
+    for EVERY admissible history of records and grouped records — any number of them, any interleaving of descriptors
+    (including descriptors whose identifiers collide, as long as no single record tree holds two of them), records
+    nested in records to any depth, groups of any number of member records, every value kind of `PVOK` — written by
+    a fresh writer, the reader run over the BYTES of the
     stream returns exactly the records written, same count, same order, each with its own descriptor and field for
     field the values written, and then ends cleanly. `hashOf` is any identifier function on which reader and
     writer agree. -/
@@ -103,4 +105,9 @@ example : ∀ st' frames, writeAll WState.init [StreamExample.o1, StreamExample.
     (∀ b ∈ frames, b.length < 4294967296) →
     readAll StreamExample.h (streamOf frames) = (rvOfList [StreamExample.o1, StreamExample.o2], .eof) :=
   fun st' frames hw hsz => C01_stream_roundtrip _ _ _ st' frames hw StreamExample.hist hsz
+-- … and by a history that starts with a grouped record
+example : ∀ st' frames, writeAll WState.init [StreamExample.g1, StreamExample.o2] = some (st', frames) →
+    (∀ b ∈ frames, b.length < 4294967296) →
+    readAll StreamExample.h (streamOf frames) = (rvOfList [StreamExample.g1, StreamExample.o2], .eof) :=
+  fun st' frames hw hsz => C01_stream_roundtrip _ _ _ st' frames hw StreamExample.histG hsz
 end C01_nonvacuous
